@@ -45,152 +45,145 @@ def matches_set(lib, fn, enum):
 
 
 def prec(R, ctx):
+    from .. import peval
+    from ..peval import Enum
     rid = "C02.prec"
     lib = ctx.lib
-    R.rule(rid, "precedence table or < and < comparison < .. < +- < */ // % < ^ (equal inside a group, strictly increasing across groups); "
-                "precedes(a,b) = prec(a) > prec(b); only ^ binds tighter than unary; right-associative = {.., ^}; left = complement")
+    R.rule(rid, "precedence table or < and < comparison < .. < +- < */ // % < ^ (equal inside a group, strictly increasing across groups; only the "
+                "relations count, renumbering is no alarm); precedes(a,b) = prec(a) > prec(b) on all 256 pairs; only ^ binds tighter than unary; "
+                "right-associative = {.., ^}; left = complement. Every function is evaluated on its whole (finite) domain from its typed tree")
+    names = [v["name"] for v in lib.adts[BINOP]["variants"]]
+    R.require(rid, "get_precedence|reference-complete", {x for g in GROUPS for x in g} == set(names), "", "reference table lists every BinaryOperator variant")
+    ref = {o: lvl for lvl, g in enumerate(GROUPS) for o in g}
+
+    def ev(fname, *args):
+        fn = lib.fn("%s::%s" % (BINOP, fname))
+        if fn is None:
+            return None, None
+        pe = peval.PEval(lib, ctx.an)
+        try:
+            return fn, pe.call_fn(fn, [Enum(BINOP, a) for a in args])
+        except peval.OutOfFuel:
+            return fn, peval.UNKNOWN
     fn = lib.fn(BINOP + "::get_precedence")
     if R.require(rid, "anchor:get_precedence", fn is not None, "", "not found"):
-        ms = tables.matches_on(lib, thir.body_of(fn), BINOP)
-        tbl = tables.variant_table(lib, ms[0], BINOP) if ms else {}
-        val = {}
-        for v, rows in tbl.items():
-            c = rows[0][0]
-            if c.startswith("int:"):
-                val[v] = int(c[4:])
-        names = [v["name"] for v in lib.adts[BINOP]["variants"]]
-        R.ob(rid, "get_precedence|total", set(val) == set(names), ctx.where(fn), "every operator has a literal precedence: %s" % (sorted(set(names) - set(val)) or "yes"))
-        if set(val) >= {x for g in GROUPS for x in g}:
+        val = {o: ev("get_precedence", o)[1] for o in names}
+        total = all(isinstance(v, int) and not isinstance(v, bool) for v in val.values())
+        R.ob(rid, "get_precedence|total", total, ctx.where(fn), "every operator has an integer precedence: %s" % ({k: str(v) for k, v in val.items() if not isinstance(v, int)} or "yes"))
+        if total and set(ref) <= set(val):
             for g in GROUPS:
                 R.ob(rid, "get_precedence|group:%s" % g[0], len({val[x] for x in g}) == 1, ctx.where(fn), "%s share one level: %s" % (g, [val[x] for x in g]))
             for a, b in zip(GROUPS, GROUPS[1:]):
                 R.ob(rid, "get_precedence|%s<%s" % (a[0], b[0]), val[a[0]] < val[b[0]], ctx.where(fn), "%d < %d" % (val[a[0]], val[b[0]]))
-        R.require(rid, "get_precedence|reference-complete", {x for g in GROUPS for x in g} == set(names), ctx.where(fn), "reference table lists every BinaryOperator variant")
     fn = lib.fn(BINOP + "::precedes")
-    if R.require(rid, "anchor:precedes", fn is not None, "", "not found"):
-        fa = ctx.an.fa(fn["path"])
-        b = thir.body_of(fn)
-        while b.get("k") == "Block" and not b["stmts"] and "tail" in b:
-            b = b["tail"]
-        ok = False
-        if b.get("k") == "Binary" and b.get("op") in ("Gt", "Lt"):
-            l_self = ("#param", 0) in fa.origins(b["l"]) and any(c.get("fname") == "get_precedence" for c in thir.walk(b["l"]) if c.get("k") == "Call")
-            r_other = ("#param", 1) in fa.origins(b["r"]) and any(c.get("fname") == "get_precedence" for c in thir.walk(b["r"]) if c.get("k") == "Call")
-            l_other = ("#param", 1) in fa.origins(b["l"]); r_self = ("#param", 0) in fa.origins(b["r"])
-            ok = (b["op"] == "Gt" and l_self and r_other) or (b["op"] == "Lt" and l_other and r_self)
-        R.ob(rid, "precedes|strictly-greater", ok, ctx.where(fn), "precedes(self, other) = prec(self) > prec(other): %s" % ok)
-    for name, want, neg_want in (("precedes_unary_expression", {"Caret"}, False), ("is_right_associative", {"Caret", "Concat"}, False), ("is_left_associative", {"Caret", "Concat"}, True)):
+    if R.require(rid, "anchor:precedes", fn is not None, "", "not found") and set(ref) >= set(names):
+        bad = []
+        for a in names:
+            for b in names:
+                v = ev("precedes", a, b)[1]
+                if v is not (ref[a] > ref[b]):
+                    bad.append("%s,%s->%s" % (a, b, v))
+        R.ob(rid, "precedes|strictly-greater", not bad, ctx.where(fn), "precedes(a, b) == prec(a) > prec(b) on all %d pairs%s" % (len(names) ** 2, "" if not bad else "; differs for " + ", ".join(bad[:6])))
+    for name, want in (("precedes_unary_expression", {"Caret"}), ("is_right_associative", {"Caret", "Concat"}), ("is_left_associative", set(names) - {"Caret", "Concat"})):
         fn = lib.fn("%s::%s" % (BINOP, name))
         if R.require(rid, "anchor:" + name, fn is not None, "", "not found"):
-            s, neg = matches_set(lib, fn, BINOP)
-            R.ob(rid, name, s == want and neg == neg_want, ctx.where(fn), "%s%s" % ("not " if neg else "", sorted(s) if s is not None else "unrecognised shape"))
+            got = {o: ev(name, o)[1] for o in names}
+            true_set = {o for o, v in got.items() if v is True}
+            unk = [o for o, v in got.items() if not isinstance(v, bool)]
+            R.ob(rid, name, true_set == want and not unk, ctx.where(fn), "true for %s%s" % (sorted(true_set), "; not established for %s" % unk if unk else ""))
+
+
+# Lua 5.1 manual §2.5.6 (+ Luau `//`): precedence groups from low to high, and the right-associative operators.
+REF_RIGHT_ASSOC = {"Concat", "Caret"}
 
 
 def needs(R, ctx):
+    """Whole decision table of the two parenthesisation functions by finite-domain evaluation (sa/peval.py)."""
+    from .. import peval
+    from ..peval import Enum, Struct, UNKNOWN, NONE
     rid = "C02.needs"
     lib = ctx.lib
-    R.rule(rid, "decision table of BinaryOperator::{left,right}_needs_parentheses, evaluated over the whole function body (local helpers inlined, "
-                "boolean lets tracked) per operand kind: a Binary operand IS parenthesised whenever the grammar requires it "
-                "(left: parent left-assoc ? precedes(parent, child) : !precedes(child, parent); right: symmetrical with right-assoc); a unary left "
-                "operand when the parent precedes unary (`^`); an if-expression left operand always; a Binary/Unary left operand that ends with an "
-                "if-expression; and for `<` a Binary/Unary/TypeCast left operand that ends with a cast to a bare type name (`x :: T < y` would "
-                "open T's type parameters). Extra parentheses never change the tree's meaning, so only missing ones are violations")
-    KNOWN = ("precedes", "is_left_associative", "is_right_associative", "precedes_unary_expression", "operator")
-    for side, assoc_fn in (("left", "is_left_associative"), ("right", "is_right_associative")):
+    R.rule(rid, "decision table of BinaryOperator::{left,right}_needs_parentheses, extracted by evaluating the functions' typed tree (helpers "
+                "inlined, accessors resolved) on EVERY (parent operator, child operator) pair and on every other operand shape that matters, "
+                "compared with Lua's grammar (manual 2.5.6; `..` and `^` right associative): a Binary operand is parenthesised whenever "
+                "prec(parent) > prec(child), or they are equal and the operand is on the non-associative side; a unary left operand under `^`; an "
+                "if-expression left operand always; a Binary/Unary left operand that ends with an if-expression; for `<` a TypeCast/Unary/Binary "
+                "left operand ending with a cast to a bare type name. One-sided: extra parentheses never change the tree's meaning")
+    ops = [v["name"] for v in lib.adts[BINOP]["variants"]]
+    ref = {}
+    for lvl, g in enumerate(GROUPS):
+        for o in g:
+            ref[o] = lvl
+    if not R.require(rid, "anchor:reference-complete", set(ref) == set(ops), "", "reference precedence table covers BinaryOperator: %s" % sorted(set(ops) ^ set(ref))):
+        return
+    N = "nodes::expressions::"
+    BE, UE, IFE, TCE = N + "binary::BinaryExpression", N + "unary::UnaryExpression", N + "if_expression::IfExpression", N + "type_cast::TypeCastExpression"
+    UOP = N + "unary::UnaryOperator"
+    TYPE, TNAME, TFIELD = "nodes::types::Type", "nodes::types::type_name::TypeName", "nodes::types::type_field::TypeField"
+
+    def fields_ok(adt, names):
+        a = lib.adts.get(adt)
+        have = {f["name"] for v in a["variants"] for f in v["fields"]} if a else set()
+        return R.require(rid, "anchor:fields:" + adt.split("::")[-1], a is not None and set(names) <= have, ctx.adt_where(adt) if a else "", "fields %s of %s" % (sorted(names), adt))
+    if not all([fields_ok(BE, ["operator", "left", "right"]), fields_ok(UE, ["operator", "expression"]), fields_ok(TCE, ["expression", "type"]),
+                fields_ok(TNAME, ["type_parameters"]), fields_ok(TFIELD, ["name"]), lib.adts.get(UOP) is not None]):
+        return
+    uops = [v["name"] for v in lib.adts[UOP]["variants"]]
+    leaf = Enum(EXPR, "Nil", {"0": UNKNOWN})
+    if_e = Enum(EXPR, "If", {"0": Struct(IFE, {})})
+
+    def binary(q, right=leaf):
+        return Enum(EXPR, "Binary", {"0": Struct(BE, {"operator": Enum(BINOP, q), "left": leaf, "right": right})})
+
+    def unary(u, inner=leaf):
+        return Enum(EXPR, "Unary", {"0": Struct(UE, {"operator": Enum(UOP, u), "expression": inner})})
+    bare = Struct(TNAME, {"type_parameters": NONE})
+    casts = {
+        "Name": Enum(EXPR, "TypeCast", {"0": Struct(TCE, {"expression": leaf, "type": Enum(TYPE, "Name", {"0": bare})})}),
+        "Field": Enum(EXPR, "TypeCast", {"0": Struct(TCE, {"expression": leaf, "type": Enum(TYPE, "Field", {"0": Struct(TFIELD, {"name": bare})})})}),
+    }
+    cells = {"left": 0, "right": 0}
+    for side in ("left", "right"):
         fn = lib.fn("%s::%s_needs_parentheses" % (BINOP, side))
         if not R.require(rid, "anchor:%s_needs_parentheses" % side, fn is not None, "", "not found"):
             continue
-        owner = {}
 
-        def own(f):
-            fa_ = ctx.an.fa(f["path"])
-            for n in thir.walk(thir.body_of(f)):
-                owner[id(n)] = fa_
-        own(fn)
-        seen_atoms = set()
-
-        def helper(e):
-            if e.get("k") != "Call" or e.get("fname") in KNOWN:
-                return None
-            q = lib.fn(thir.callee_of(e) or "")
-            if q is None or not q["path"].startswith(BINOP + "::") or not thir.body_of(q) or not e["args"]:
-                return None
-            fa_ = owner.get(id(e))
-            if fa_ is None or ("#param", 0) not in fa_.origins(e["args"][0]):
-                return None
-            return q
-
-        def inline(e):
-            q = helper(e)
-            if q is None:
-                return None
-            b_ = thir.body_of(q)
-            if id(b_) not in owner:
-                own(q)
-            return b_
-
-        def atom(e, assoc_fn=assoc_fn):
-            if e.get("k") != "Call" or "fname" not in e:
-                return None
-            f = e["fname"]
-            if f == assoc_fn:
-                return ("assoc",)
-            if f in ("is_left_associative", "is_right_associative"):
-                return ("not", ("assoc",))
-            if f == "precedes_unary_expression":
-                return ("p_unary",)
-            if f == "precedes":
-                fa_ = owner.get(id(e))
-                o = fa_.origins(e["args"][0]) if fa_ else set()
-                recv_self = ("#param", 0) in o and not any(c.get("fname") == "operator" for c in thir.walk(e["args"][0]) if c.get("k") == "Call")
-                return ("p_parent_child",) if recv_self else ("p_child_parent",)
-            if helper(e) is not None:
-                return None
-            seen_atoms.add(f)
-            return ("extra", f)
-
-        def run_case(kind, op, fixed):
-            def select(m):
-                t = lib.types[lib.strip_refs(m["scrut"]["t"])].get("adt")
-                if t == EXPR:
-                    return [a for a in m["arms"] if (EXPR, kind) in thir.pat_variants(a["pat"]) or thir.pat_is_catchall(a["pat"])]
-                if t == BINOP:
-                    return [a for a in m["arms"] if (BINOP, op) in thir.pat_variants(a["pat"]) or thir.pat_is_catchall(a["pat"])]
-                return None
-            it = absint.Interp(atom, lambda c: None, fixed, default=lambda a: False if a[0] == "extra" else None, select=select, inline=inline)
+        def table(p, operand, fn=fn):
+            pe = peval.PEval(lib, ctx.an)
             try:
-                ps = it.exec_value(thir.body_of(fn), [absint.Path()])
-            except RuntimeError:
-                return {"too many paths"}
-            return {p.ret for p in ps}
+                v = pe.call_fn(fn, [Enum(BINOP, p), operand])
+            except peval.OutOfFuel:
+                return UNKNOWN, ["evaluation did not terminate"]
+            return v, pe.unknown_reasons
 
-        def need_true(key, kind, op, fixed, what):
-            rets = run_case(kind, op, fixed)
-            R.ob(rid, "%s|%s" % (side, key), rets == {True}, ctx.where(fn),
-                 "%s: returns %s%s" % (what, sorted(rets, key=str), "" if rets == {True} else " -- parentheses required by the grammar are not written"))
-
-        base = {("assoc",): True, ("p_parent_child",): False, ("p_child_parent",): True, ("p_unary",): False}
-        for assoc in (True, False):
-            for pc, cp in ((True, False), (False, True), (False, False)):
-                want = pc if assoc else (not cp)
-                fixed = {("assoc",): assoc, ("p_parent_child",): pc, ("p_child_parent",): cp, ("p_unary",): False}
+        def need_true(key, p, operand, what, fn=fn, side=side):
+            v, why = table(p, operand)
+            cells[side] += 1
+            R.ob(rid, "%s|%s" % (side, key), v is True, ctx.where(fn),
+                 what + (": parenthesised" if v is True else (": NOT parenthesised -- the text written re-parses as a different tree / is invalid" if v is False else
+                                                               ": table cell not established (%s)" % "; ".join(why[:2]))))
+        for p in ops:
+            opt = []
+            for q in ops:
+                want = ref[p] > ref[q] or (ref[p] == ref[q] and ((p in REF_RIGHT_ASSOC) if side == "left" else (p not in REF_RIGHT_ASSOC)))
                 if want:
-                    need_true("binary|assoc=%s,parent>child=%s,child>parent=%s" % (assoc, pc, cp), "Binary", "Plus", fixed, "grammar requires parentheses")
+                    need_true("binary|%s|%s" % (p, q), p, binary(q), "%s operand `a %s b` of `%s`" % (side, q, p))
                 else:
-                    rets = run_case("Binary", "Plus", fixed)
-                    R.ob(rid, "%s|binary-optional|assoc=%s,parent>child=%s,child>parent=%s" % (side, assoc, pc, cp), True, ctx.where(fn),
-                         "parentheses optional here; returns %s" % sorted(rets, key=str), nontrivial=False)
+                    opt.append(q)
         if side == "left":
-            need_true("unary", "Unary", "Caret", {**base, ("p_unary",): True}, "unary left operand of an operator that precedes unary (-a ^ b)")
-            need_true("if-expression", "If", "Plus", base, "if-expression as left operand")
-            for kind in ("Binary", "Unary"):
-                need_true("ends-with-if|" + kind, kind, "Plus", {**base, ("extra", "ends_with_if_expression"): True},
-                          "%s left operand ending with an if-expression (it would swallow the operator)" % kind)
-            for kind in ("Binary", "Unary", "TypeCast"):
-                need_true("cast-before-<|" + kind, kind, "LowerThan", {**base, ("extra", "ends_with_type_cast_to_type_name_without_type_parameters"): True},
-                          "%s left operand of `<` ending with a cast to a bare type name" % kind)
-            R.require(rid, "left|anchor:extras", {"ends_with_if_expression", "ends_with_type_cast_to_type_name_without_type_parameters"} <= seen_atoms, ctx.where(fn),
-                      "predicates consulted: %s" % sorted(seen_atoms))
+            for u in uops:
+                need_true("unary|%s" % u, "Caret", unary(u), "unary (%s) left operand of `^`" % u)
+            for p in ops:
+                need_true("if-expression|%s" % p, p, if_e, "if-expression as left operand of %s" % p)
+                need_true("ends-with-if|Binary|%s" % p, p, binary("Caret", if_e), "left operand `a ^ if ..` of %s" % p)
+                need_true("ends-with-if|Unary|%s" % p, p, unary(uops[0], if_e), "left operand `-if ..` of %s" % p)
+            for tname, cast in casts.items():
+                need_true("cast-before-<|TypeCast|%s" % tname, "LowerThan", cast, "left operand `x :: T` (Type::%s, no parameters) of `<`" % tname)
+                need_true("cast-before-<|Binary|%s" % tname, "LowerThan", binary("Caret", cast), "left operand `a ^ x :: T` (Type::%s) of `<`" % tname)
+                for u in uops:
+                    need_true("cast-before-<|Unary.%s|%s" % (u, tname), "LowerThan", unary(u, cast), "left operand `%s x :: T` (Type::%s) of `<`" % (u, tname))
+    R.require(rid, "floor:cells", cells["left"] >= 150 and cells["right"] >= 100, "", "table cells requiring parentheses: %s" % cells)
+    R.meta["needs_table_cells"] = cells
 
 
 def gen_parens(R, ctx):
@@ -571,7 +564,7 @@ def raw(R, ctx):
             else:
                 R.ob(rid, "%s|%s|%s" % (g, short, lit), lit in RAW_REVIEWED_LIT, ctx.where(f, x.get("ln")),
                      RAW_REVIEWED_LIT.get(lit, "unreviewed raw write of %s: bypasses should_break_with_space" % lit))
-    R.require(rid, "floor", n >= 100, "", "%d raw write sites (floor 100)" % n)
+    R.require(rid, "floor", n >= 60, "", "%d raw write sites (floor 60)" % n)
 
 
 def run(R, ctx):
